@@ -411,11 +411,31 @@ func zzC10rRun(withVal bool, nops int) {
 	}
 	finalDel := zzverif.Bool("final.deleteEmpty")
 
-	// run A: flush points flush
+	// run A: flush points flush; at one point (or never) the work continues on a Copy of the state
+	// never, or right before the final commit (thorough: before any operation)
+	copyAt := -1
+	if zzverif.Thorough() {
+		copyAt = zzverif.Choose("continueOnCopyBeforeOp", nops+2) - 1
+	} else {
+		copyAt = []int{-1, nops}[zzverif.Choose("continueOnCopy", 2)]
+	}
 	a := zzC10rNew()
 	setup(a)
-	for _, op := range ops {
+	// (the copy is taken at a transaction boundary: a copy starts with an empty journal, so what the
+	// current transaction still has pending - a self-destruct, a touched empty account - is not
+	// finalised in it; see zzH_C10_copy_midtx)
+	for i, op := range ops {
+		if i == copyAt {
+			zzverif.Reach("continued-on-copy")
+			a.Finalise(true)
+			a = a.Copy()
+		}
 		zzC10rApply(a, op, true)
+	}
+	if copyAt == nops {
+		zzverif.Reach("continued-on-copy")
+		a.Finalise(true)
+		a = a.Copy()
 	}
 	root, valRoot, stakingRoot, err := a.Commit(finalDel)
 	zzverif.Assert(err == nil && a.Error() == nil, "commit succeeds")
@@ -432,8 +452,14 @@ func zzC10rRun(withVal bool, nops int) {
 	// run B: same writes and transaction boundaries, no flush before the final commit
 	b := zzC10rNew()
 	setup(b)
-	for _, op := range ops {
+	for i, op := range ops {
+		if i == copyAt {
+			b.Finalise(true) // the same transaction boundary, no copy
+		}
 		zzC10rApply(b, op, false)
+	}
+	if copyAt == nops {
+		b.Finalise(true)
 	}
 	rootB, valRootB, stakingRootB, err := b.Commit(finalDel)
 	zzverif.Assert(err == nil && b.Error() == nil, "commit succeeds (single flush)")
@@ -451,3 +477,38 @@ func zzH_C10_reopen() { zzC10rRun(false, zzverif.Bound("operations", 3, 4)) }
 
 // zzH_C10_reopen_val: the same with validators, delegation, withdraw queue in play.
 func zzH_C10_reopen_val() { zzC10rRun(true, zzverif.Bound("operations (validators)", 2, 3)) }
+
+// zzH_C10_copy_midtx: a copy taken in the middle of a transaction commits what the original
+// commits.  Known finding: it does not when the transaction has a self-destruct (or a touched
+// empty account) pending - the copy's journal is empty, so its Finalise never deletes the object.
+func zzH_C10_copy_midtx() {
+	commit := func(viaCopy bool, pending int) zzC10rObs {
+		s := zzC10rNew()
+		s.SetBalance(zzAddr(0), big.NewInt(5))
+		s.SetState(zzAddr(0), zzC10rKey, common.Hash{31: 3})
+		s.Finalise(true)
+		switch pending {
+		case 0:
+			s.Suicide(zzAddr(0))
+		case 1:
+			s.AddBalance(zzAddr(1), new(big.Int)) // touches an empty account
+		case 2:
+			s.SetNonce(zzAddr(0), 9)
+		}
+		if viaCopy {
+			s = s.Copy()
+		}
+		root, valRoot, stakingRoot, err := s.Commit(true)
+		zzverif.Assert(err == nil, "commit succeeds")
+		r, err := New(root, valRoot, stakingRoot, zzC10rDB)
+		if err != nil {
+			zzverif.Assume(false)
+		}
+		return zzC10rObserve(r, false)
+	}
+	pending := zzverif.Choose("pendingInTransaction", 3)
+	direct, viaCopy := commit(false, pending), commit(true, pending)
+	zzverif.Reach("both-committed")
+	zzverif.AssertKF(zzC10rSame(direct, viaCopy, false), "a copy taken mid-transaction commits what the original commits", "C10-copy-mid-transaction-selfdestruct", pending == 0)
+	zzverif.Reach("end")
+}
